@@ -13,6 +13,7 @@ import (
 	"math/big"
 	"math/rand"
 	"sort"
+	"strings"
 
 	"github.com/deadsy/sdfx/sdf"
 	v2 "github.com/deadsy/sdfx/vec/v2"
@@ -372,6 +373,27 @@ func randomPolygon(r *rand.Rand, fam int) ([]v2.Vec, string) {
 			vs = append(vs, v2.Vec{X: cx + x, Y: cy + y})
 		}
 		vs = append(vs, v2.Vec{X: cx, Y: cy + y})
+	case 5:
+		// uniformly spaced vertex levels at a non-dyadic pitch, 2m segments: every level is a boundary of
+		// any index that divides the y-range into (a divisor of) 2m equal strips
+		name = "ladder"
+		m := 2 + r.Intn(39)
+		if r.Intn(5) == 0 {
+			m = []int{64, 96, 128}[r.Intn(3)]
+		}
+		pitch := []float64{0.7, 1.27, 1.1, 0.1, 1.0 / 3, 0.3 + r.Float64()}[r.Intn(6)] * scale
+		if r.Intn(2) == 0 {
+			cy = 0
+		}
+		if r.Intn(4) == 0 {
+			cy = -float64(r.Intn(m+1)) * pitch
+		}
+		for k := 0; k <= m; k++ {
+			vs = append(vs, v2.Vec{X: cx + (1+r.Float64())*scale, Y: cy + float64(k)*pitch})
+		}
+		for k := m - 1; k >= 1; k-- {
+			vs = append(vs, v2.Vec{X: cx - (1+r.Float64())*scale, Y: cy + float64(k)*pitch})
+		}
 	default:
 		name = "gridstar"
 		star(4+r.Intn(10), 0.4, 1)
@@ -456,7 +478,7 @@ func c04Random(args []string) error {
 		var vs []v2.Vec
 		name := ""
 		for try := 0; ; try++ {
-			vs, name = randomPolygon(r, (idx+try)%5)
+			vs, name = randomPolygon(r, (idx+try)%6)
 			if simpleEnough(vs) {
 				break
 			}
@@ -515,6 +537,18 @@ func c04Random(args []string) error {
 				i := r.Intn(len(vs))
 				m := vs[i].Add(vs[(i+1)%len(vs)]).MulScalar(0.5)
 				pts, kinds = append(pts, va, m), append(kinds, 6, 6)
+			}
+		}
+		if strings.HasPrefix(name, "ladder") {
+			// every vertex level: inside, far left, far right
+			seen := map[float64]bool{}
+			for _, q := range vs {
+				if !seen[q.Y] {
+					seen[q.Y] = true
+					mid := 0.5 * (bb.Min.X + bb.Max.X)
+					pts = append(pts, v2.Vec{X: mid, Y: q.Y}, v2.Vec{X: bb.Min.X - 0.3*sz.X, Y: q.Y}, v2.Vec{X: bb.Max.X + 0.3*sz.X, Y: q.Y})
+					kinds = append(kinds, 4, 4, 4)
+				}
 			}
 		}
 		qp, qk := quadProbes(rp, 150, r)
